@@ -148,6 +148,12 @@ impl Deserializable for Context {
         // read options
         let options = ProofOptions::read_from(source)?;
 
+        // make sure trace length and LDE domain size are within the supported range
+        let lde_domain_size = trace_info.length().checked_mul(options.blowup_factor());
+        if trace_info.length() > u32::MAX as usize || lde_domain_size.unwrap_or(usize::MAX) > u32::MAX as usize {
+            return Err(DeserializationError::InvalidValue("LDE domain size too big".to_string()));
+        }
+
         Ok(Context { trace_info, field_modulus_bytes, options })
     }
 }
